@@ -13,6 +13,7 @@ import (
 	"testing"
 	"time"
 
+	ltls "github.com/lesismal/llib/std/crypto/tls"
 	"github.com/lesismal/nbio"
 	"github.com/lesismal/nbio/logging"
 	"github.com/lesismal/nbio/mempool"
@@ -60,6 +61,7 @@ type HTTPCase struct {
 	MaxBlocking int       `json:"max_blocking,omitempty"`
 	Conns   []ClientPlan  `json:"conns"`
 	Track   bool          `json:"track,omitempty"` // C11: ownership-tracking allocators instead of the real pools
+	TLS     bool          `json:"tls,omitempty"`   // the server listens with TLS (llib, transformed); clients are crypto/tls clients
 	Side    string        `json:"side,omitempty"` // "" (server clauses) | client (client clause, see client.go)
 	Cli     *CliPlan      `json:"cli,omitempty"`
 }
@@ -95,6 +97,7 @@ func genHTTPServerCase(r *simrt.Rand, tier string) *HTTPCase {
 	c.NPoller = r.Pick(1, 2)
 	c.Pool = r.Pick(0, 2, 4)
 	c.MaxBlocking = r.Pick(1, 2)
+	c.TLS = r.Bool(0.2)
 	nc := r.Range(1, 4)
 	for i := 0; i < nc; i++ {
 		cp := ClientPlan{Pipeline: r.Pick(1, 1, 2, 4), Piece: r.Pick(1, 7, 64, 100000)}
@@ -124,6 +127,9 @@ func genHTTPServerCase(r *simrt.Rand, tier string) *HTTPCase {
 				rp.Flush = false
 			}
 			rp.Yields = r.Pick(0, 0, 2)
+			if c.TLS && cp.Piece < 7 {
+				cp.Piece = 7 // one TLS record per piece
+			}
 			rp.SplitCL = !rp.Flush && rp.Resp > 16 && r.Bool(0.25)
 			cp.Reqs = append(cp.Reqs, rp)
 		}
@@ -270,6 +276,15 @@ func newEngine(iomod, mode string, npoller, pool, maxBlocking int, handler http.
 	if trackBody != nil {
 		conf.BodyAllocator = trackBody
 	}
+	if tlsOn {
+		cert, err := ltls.X509KeyPair([]byte(simCertPEM), []byte(simKeyPEM))
+		if err != nil {
+			panic("sim certificate: " + err.Error())
+		}
+		conf.Addrs = nil
+		conf.AddrsTLS = []string{"127.0.0.1:8443"}
+		conf.TLSConfig = &ltls.Config{Certificates: []ltls.Certificate{cert}}
+	}
 	if iomod == "std" {
 		// the engine only lends its pools and timers: connections come from a std-style server
 		conf.Addrs = nil
@@ -280,6 +295,9 @@ func newEngine(iomod, mode string, npoller, pool, maxBlocking int, handler http.
 
 // trackBody, when set, is the body allocator of the engines newEngine builds (C11 runs).
 var trackBody mempool.Allocator
+
+// tlsOn makes newEngine build a TLS server (127.0.0.1:8443, the fixed certificate of tlscert.go).
+var tlsOn bool
 
 // tracking installs ownership-tracking allocators for one run and returns the function
 // that removes them and reports what they saw.
@@ -313,7 +331,7 @@ func tracking(on bool) func(o *common.Outcome, prop string) {
 
 type clientState struct {
 	plan    ClientPlan
-	sock    *kernel.Sock
+	p       *peer
 	recvd   []byte
 	eof     bool
 	reset   bool
@@ -406,7 +424,9 @@ func runHTTPServer(t *testing.T, c *HTTPCase, trace bool) *common.Outcome {
 			active--
 			inHandler[connID]--
 		})
+		tlsOn = c.TLS
 		eng := newEngine(c.IOMod, c.Mode, c.NPoller, c.Pool, c.MaxBlocking, handler)
+		tlsOn = false
 		if err := eng.Start(); err != nil {
 			o.Infra = "engine start: " + err.Error()
 			return
@@ -416,33 +436,45 @@ func runHTTPServer(t *testing.T, c *HTTPCase, trace bool) *common.Outcome {
 		done := 0
 		for i, plan := range c.Conns {
 			i, plan := i, plan
-			cs := &clientState{plan: plan, sock: k.NewPeer(kernel.TCP)}
+			cs := &clientState{plan: plan}
 			clients[i] = cs
-			if err := k.ConnectPeer(cs.sock, addr); err != nil {
-				o.Infra = "client connect: " + err.Error()
-				return
-			}
-			// reader
-			simrt.GoNamed(fmt.Sprintf("client%d-reader", i), func() {
-				simrt.MarkDaemon()
-				for {
-					simrt.WaitUntil("client-readable", func() bool { return cs.sock.Readable() > 0 || cs.sock.EOF() || cs.sock.Closed() })
-					if cs.sock.Readable() == 0 {
-						cs.eof = true
-						cs.reset = cs.sock.WasReset()
-						return
-					}
-					b, err := cs.sock.PeerRead(1 << 16)
-					if err != nil {
-						cs.eof, cs.reset = true, true
-						return
-					}
-					cs.recvd = append(cs.recvd, b...)
+			if !c.TLS {
+				p, err := dialPeer(k, addr)
+				if err != nil {
+					o.Infra = "client connect: " + err.Error()
+					return
 				}
-			})
+				cs.p = p
+			}
+			reader := func() {
+				simrt.GoNamed(fmt.Sprintf("client%d-reader", i), func() {
+					simrt.MarkDaemon()
+					for {
+						b, err := cs.p.read()
+						if err != nil {
+							cs.eof = true
+							cs.reset = cs.p.wasReset()
+							return
+						}
+						cs.recvd = append(cs.recvd, b...)
+					}
+				})
+			}
+			if !c.TLS {
+				reader()
+			}
 			// writer
 			simrt.GoNamed(fmt.Sprintf("client%d", i), func() {
 				defer func() { done++ }()
+				if c.TLS {
+					p, err := dialTLSPeer(k, "127.0.0.1:8443")
+					if err != nil {
+						fail("tls-handshake-failed", class, "client %d: TLS handshake with the server failed: %v", i, err)
+						return
+					}
+					cs.p = p
+					reader()
+				}
 				for j, rp := range plan.Reqs {
 					id := fmt.Sprintf("c%d-r%d", i, j)
 					var b strings.Builder
@@ -464,25 +496,8 @@ func runHTTPServer(t *testing.T, c *HTTPCase, trace bool) *common.Outcome {
 					} else {
 						fmt.Fprintf(&b, "Content-Length: %d\r\n\r\n%s", len(body), body)
 					}
-					msg := []byte(b.String())
-					for len(msg) > 0 {
-						n := plan.Piece
-						if n > len(msg) {
-							n = len(msg)
-						}
-						w, err := cs.sock.PeerWrite(msg[:n])
-						if err != nil {
-							return
-						}
-						if w == 0 {
-							s := cs.sock
-							simrt.WaitUntil("client-write-room", func() bool { return s.Space() > 0 || s.WasReset() || s.Closed() })
-							if s.WasReset() {
-								return
-							}
-							continue
-						}
-						msg = msg[w:]
+					if !cs.p.write([]byte(b.String()), plan.Piece) {
+						return
 					}
 					cs.written = j + 1
 					// pipelining window: wait until all but (Pipeline-1) earlier requests are answered
